@@ -2,6 +2,7 @@
 Shared by the checks of C01 C04 C05 C06 C07 C08 C09 C10 C11 C12 C13."""
 import hashlib
 import json
+import os
 import random
 import re
 
@@ -24,7 +25,7 @@ class Gen:
     """Structured, mostly-valid histories; collision-heavy id pools; every choice from one PRNG."""
 
     def __init__(self, rnd, weights=None, npeers=3, idpool=(1, 2, 3), maxlen=30, p_fail=0.15, big_seids=True,
-                 txseq0_choices=(0, 5, 2**24 - 2, 2**24 - 1), maxretrans_choices=(0, 1, 2, 3)):
+                 txseq0_choices=(0, 5, 2**24 - 2, 2**24 - 1), maxretrans_choices=(0, 1, 2, 3), p_panic=0.0):
         self.r = rnd
         self.w = dict(asr=6, est=14, mod=22, dele=8, hb=3, dup=8, usa=8, dld=5, timeout=8, srr=6, otherreq=2, otherrsp=2)
         if weights:
@@ -32,6 +33,7 @@ class Gen:
         self.npeers, self.idpool, self.maxlen, self.p_fail = npeers, list(idpool), maxlen, p_fail
         self.big_seids = big_seids
         self.txseq0_choices, self.maxretrans_choices = txseq0_choices, maxretrans_choices
+        self.p_panic = p_panic      # share of est/mod requests during which one driver call panics (contained: fix 242a7e8)
 
     def ids(self, kmax=2, none_p=0.04):
         n = self.r.choice([0, 0, 1, 1, 1, 2, kmax])
@@ -83,6 +85,9 @@ class Gen:
                 for i in self.idpool:
                     if r.random() < self.p_fail / 3:
                         fail.append({"op": op, "kind": kind, "id": i})
+                        if op == "create" and r.random() < 0.4:
+                            # the failing installation leaves the rule behind (residue marker, see ModelDP.call / dp_call)
+                            fail.append({"op": "remove", "kind": kind, "id": i})
         for op in ("update", "remove", "query"):
             for i in self.idpool:
                 if r.random() < 0.6:
@@ -90,10 +95,26 @@ class Gen:
                     # a report labelled with ANOTHER URR's id is only scripted where the handler's call order is fixed by the
                     # message (IE order); Sess.Close (deletion, re-association) removes URRs in Go's map order, which would
                     # make "which of two reports for one URR comes first" depend on the run
-                    exact = op == "remove" and ev.get("msg", {}).get("k") in ("del", "asr")
+                    mops = ev.get("msg", {}).get("ops") or {}
+                    exact = (op == "remove" and ev.get("msg", {}).get("k") in ("del", "asr")) or \
+                            (op == "query" and (mops.get("rPDR") or mops.get("uPDR")))     # a PDR's URR set is a Go map too
                     rp = [self.rpt(i if (exact or r.random() < 0.93) else r.choice(self.idpool)) for _ in range(n)]
                     usage.append({"op": op, "id": i, "rpts": rp})
         ev["fail"], ev["usage"] = fail, usage
+        if self.p_panic and ev.get("msg", {}).get("k") in ("est", "mod") and r.random() < self.p_panic:
+            ops = ev["msg"].get("ops") or {}
+            cands = []
+            for key in ("cFAR", "cQER", "cURR", "cBAR", "cPDR", "uFAR", "uQER", "uURR", "uBAR", "uPDR"):
+                ids_ = [(x.get("id") if isinstance(x, dict) else x) for x in (ops.get(key) or [])]
+                for i in ids_:
+                    if i is not None and ids_.count(i) == 1:
+                        cands.append({"op": "create" if key[0] == "c" else "update", "kind": key[1:].lower(), "id": i})
+            if cands:
+                t = r.choice(cands)
+                ev["panic"] = t
+                # the model sees the panicking call as a failed call (nothing reaches the data plane), then the abort
+                if t not in fail:
+                    fail.append(dict(t))
 
     def ieval(self, pool, absent_p=0.04, bad_p=0.04):
         x = self.r.random()
@@ -273,7 +294,7 @@ class Gen:
                     if act == "q" and have:
                         ids = r.sample(have, r.randint(1, min(2, len(have))))
                         ops["qURR"] = ids
-                        usage += [{"op": "query", "id": i, "rpts": rpts(i)} for i in ids if r.random() < 0.9]
+                        usage += [{"op": "query", "id": i, "rpts": rpts(i, exact=True)} for i in ids if r.random() < 0.9]
                     elif act == "u" and have:
                         ids = r.sample(have, r.randint(1, min(2, len(have))))
                         ops["uURR"] = [urr(i) for i in ids]
@@ -295,14 +316,14 @@ class Gen:
                         ops["rPDR"] = [pid]
                         for i in S["pdrs"].pop(pid):
                             if r.random() < 0.8:
-                                usage.append({"op": "query", "id": i, "rpts": rpts(i, 1)})
+                                usage.append({"op": "query", "id": i, "rpts": rpts(i, 1, exact=True)})
                     elif act == "up" and S["pdrs"] and have:
                         pid = r.choice(sorted(S["pdrs"]))
                         new = sorted(r.sample(have, r.randint(0, min(2, len(have)))))
                         ops["uPDR"] = [{"id": pid, "urrs": new, "ueip": False}]
                         for i in S["pdrs"][pid]:
                             if i not in new and r.random() < 0.8:
-                                usage.append({"op": "query", "id": i, "rpts": rpts(i, 1)})
+                                usage.append({"op": "query", "id": i, "rpts": rpts(i, 1, exact=True)})
                         if new:
                             S["pdrs"][pid] = new
                     elif act == "cp" and have:
@@ -433,7 +454,55 @@ def c_ops(o):
         ids("uFAR"), ids("uQER"), urrs("uURR"), ids("uBAR"), pdrs("uPDR"), ids("qURR"))
 
 
-def c_event(ev, reset_order):
+_ORDERS = {}
+
+
+def handler_orders():
+    """category order of the establishment / modification handlers as T-gen extracted it (coq/gen/HandlerGen.v), as ops keys"""
+    if not _ORDERS:
+        txt = open(os.path.join(common.COQ, "gen", "HandlerGen.v")).read()
+        for name in ("est_order", "mod_order"):
+            m = re.search(r"Definition %s : list string := \[(.*?)\]\." % name, txt, re.S)
+            keys = []
+            for nm in re.findall(r'"(\w+):\w+"', m.group(1)):
+                verb, kind = nm[:6], nm[6:]
+                keys.append({"Create": "c", "Remove": "r", "Update": "u"}.get(verb, "q") + kind if verb != "QueryU" else "qURR")
+            _ORDERS[name] = keys
+    return _ORDERS
+
+
+def truncate_ops(ops, order, target):
+    """the operations a handler had run when its driver call target = {op, kind, id} panicked: every category before the
+    target's, the target's category up to and including the first entry with that id, nothing after"""
+    ops = ops or {}
+    key = {"create": "c", "update": "u"}[target["op"]] + target["kind"].upper()
+    out = {}
+    for k in order:
+        lst = ops.get(k, []) or []
+        if k != key:
+            out[k] = lst
+            continue
+        keep = []
+        for x in lst:
+            keep.append(x)
+            xid = x.get("id") if isinstance(x, dict) else x
+            if xid == target["id"]:
+                break
+        out[k] = keep
+        break
+    return out
+
+
+def c_event(ev, reset_order, obs=None):
+    if ev["t"] == "recv" and obs is not None and obs.get("panicked") and ev["msg"]["k"] in ("est", "mod"):
+        # the scripted driver panic fired: the model's event is "handler aborted after these operations"
+        m = ev["msg"]
+        o = truncate_ops(m.get("ops"), handler_orders()["est_order" if m["k"] == "est" else "mod_order"], ev["panic"])
+        if m["k"] == "est":
+            ms = "(MEst %s %s %s)" % (c_ieval(m.get("nid")), c_ieval(m.get("fseid")), c_ops(o))
+        else:
+            ms = "(MMod %d %s %s)" % (m["seid"], c_ieval(m.get("nid")), c_ops(o))
+        return "(EvRecvAbort %d %d %s %s)" % (ev["peer"], ev["seq"], ms, c_env(ev))
     if ev["t"] == "recv":
         m = ev["msg"]
         k = m["k"]
@@ -604,7 +673,7 @@ def c_case(case, obs, prefix):
     orders = reset_orders(case, obs)
     items = []
     for ev, o, ro in zip(case["events"], obs, orders):
-        items.append("(%s, %s)" % (c_event(ev, ro), c_obs(o, names)))
+        items.append("(%s, %s)" % (c_event(ev, ro, o), c_obs(o, names)))
     return "(mkCase %d %d %s)" % (case["txseq0"], case["maxretrans"], clist(items))
 
 
